@@ -37,6 +37,25 @@ pub proof fn lemma_newest_bounded(a: Seq<(u32, usize)>, f: u32, n: int, k: int)
     ensures newest(a, f, n) is Some ==> newest(a, f, n)->Some_0 <= k,
     decreases n
 { if n > 0 && a[n - 1].0 != f { lemma_newest_bounded(a, f, n - 1, k); } }
+
+// ---- why the searches' precondition holds at every call (composition over the contracts of unit block_exec; spec level only) ----
+// marks_ok(a, d): with d scopes on the stack, every mark names an existing scope and marks are in stack order
+pub open spec fn marks_ok(a: Seq<(u32, usize)>, d: int) -> bool {
+    (forall|i: int| 0 <= i < a.len() ==> (#[trigger] a[i]).1 < d) && (forall|i: int, j: int| 0 <= i < j < a.len() ==> (#[trigger] a[i]).1 < (#[trigger] a[j]).1)
+}
+// call_prologue (block_exec: acts' == acts.push((f, depth - 1)) right after the parameter scope was opened at depth d -> d + 1)
+pub proof fn lemma_marks_call(a: Seq<(u32, usize)>, d: int, f: u32, base: usize)
+    requires marks_ok(a, d), base == d, ensures marks_ok(a.push((f, base)), d + 1)
+{ let b = a.push((f, base)); assert forall|i: int| 0 <= i < b.len() implies (#[trigger] b[i]).1 < d + 1 by { if i < a.len() { assert(b[i] == a[i]); } }
+  assert forall|i: int, j: int| 0 <= i < j < b.len() implies (#[trigger] b[i]).1 < (#[trigger] b[j]).1 by { assert(b[i] == a[i]); if j < a.len() { assert(b[j] == a[j]); } } }
+// a block opening a scope inside the activation (exec_block_with_flow: depth + 1, acts unchanged), and closing it again while every mark stays below
+pub proof fn lemma_marks_deeper(a: Seq<(u32, usize)>, d: int, e: int) requires marks_ok(a, d), d <= e, ensures marks_ok(a, e) { }
+// call_epilogue (block_exec: acts' == acts.drop_last(), depth - 1) when the removed mark is the one of the scope being closed
+pub proof fn lemma_marks_return(a: Seq<(u32, usize)>, d: int)
+    requires marks_ok(a, d + 1), a.len() > 0, a.last().1 == d, ensures marks_ok(a.drop_last(), d)
+{ let b = a.drop_last(); assert forall|i: int| 0 <= i < b.len() implies (#[trigger] b[i]).1 < d by { assert(b[i] == a[i]); assert(a[i].1 < a[a.len() - 1].1); } }
+// and marks_ok is what the three searches require
+pub proof fn lemma_marks_pre(a: Seq<(u32, usize)>, d: int) requires marks_ok(a, d), ensures forall|i: int| 0 <= i < a.len() ==> (#[trigger] a[i]).1 <= d { }
 '''
 
 # R10e: `for X in S[floor..].iter_mut().rev() {` / `for Y in X.iter_mut().rev() {` written as the index loops std defines them to be
@@ -88,10 +107,10 @@ UNIT = VUnit(
     trusted=["activation marks are (u32, usize) pairs (FunctionId is a u32 newtype); the facts table is a shim returning the local's owner",
              "R10d: `X.iter().rev().find_map(|(function, base)| (COND).then_some(*base)).unwrap_or(0)` is written as the loop std defines it to be: from the last element to the first, the first element satisfying COND gives the value, 0 if none",
              "R10e: in lookup_local_mut the two `for .. in ...iter_mut().rev()` loops are written as index loops from the last element down (to `floor` for the slice `env[floor..]`), and the returned `&mut slot.value` as the slot's position (scope index, slot index); LocalSlot is reduced to its `id`",
-             "every activation mark's base is at most env.len() (precondition of lookup_local_mut: established by call_prologue, which pushes the mark for the scope it has just opened -- unit block_exec; not re-proved as a data-structure invariant here). Without it `env[floor..]` panics",
+             "every activation mark's base is at most env.len() (precondition of lookup_local_mut: established by call_prologue, which pushes the mark for the scope it has just opened -- unit block_exec). Lemmas lemma_marks_call / _deeper / _return / _pre show at spec level that the pushes and pops those contracts describe keep `marks_ok` and that it implies this precondition; that the REAL call sites are reached only in such states (an invariant across eval_function_call's whole body and every error path) is not an obligation of any check. Without the precondition `env[floor..]` panics",
              "R10f: in assign_bound_local `scope.iter_mut().rev().find(|slot| slot.id == Some(local))` is written as its loop (last element first); the slot handed to overwrite_slot is returned as its position, the write itself (overwrite_slot: unit store_sites) and the three locals it needs are dropped, the UndeclaredVariable error is `Err(())`",
              "R10g: in lookup_local_env the nested `iter().rev().find_map(..)` chain is written as its two loops (last element first, the first `Some` ends both), the `&slot.value` as the slot's position"],
-    lemma_obligations=["lemma_newest_bounded"],
+    lemma_obligations=["lemma_newest_bounded", "lemma_marks_call", "lemma_marks_deeper", "lemma_marks_return", "lemma_marks_pre"],
     items=[
         Fn("local_search_floor", impl="impl Runtime",
            sig="fn local_search_floor(me: &Ra, local: LocalId) -> (res: usize)", expect_sig=r"fn local_search_floor\(&self, local: LocalId\) -> usize",
